@@ -4,7 +4,7 @@
     a capture-promotion with check, castling, en passant). *)
 From Coq Require Import ZArith NArith List Bool Lia.
 From Texel Require Import Chess.Types Chess.Position Chess.Fen Chess.PositionInst Chess.Spec
-  TextIO.MoveText TextIO.MoveTextP TextIO.ParseSweep TextIO.MoveTextFacts TextIO.MoveTextProofs.
+  TextIO.MoveText TextIO.MoveTextP TextIO.ParseSweep TextIO.MoveTextFacts TextIO.MoveTextProofs TextIO.SpecShape.
 Import ListNotations.
 Local Open Scope N_scope.
 
@@ -56,6 +56,60 @@ Proof.
   exact (short_injective p (legalOf p) (gcOf p) (mateOf p) (legalShapeb_ok _ _ H) a b Ha Hb E).
 Qed.
 
+(* ---------- the hypothesis holds on every accepted position ---------- *)
+Lemma existsb_move_In : forall a l, existsb (move_eqb a) l = true <-> In a l.
+Proof.
+  intros a l. rewrite existsb_exists. split.
+  - intros [x [Hx E]]. apply move_eqb_eq in E. subst x. exact Hx.
+  - intro H. exists a. split; [exact H|apply move_eqb_eq; reflexivity].
+Qed.
+
+Lemma dedup_In : forall l x, In x (dedup l) <-> In x l.
+Proof.
+  induction l as [|a l IH]; intro x; [tauto|]. cbn [dedup].
+  destruct (existsb (move_eqb a) l) eqn:E.
+  - rewrite IH. apply existsb_move_In in E. split; [right; assumption|]. intros [<-|H]; assumption.
+  - cbn [In]. rewrite IH. tauto.
+Qed.
+
+Lemma dedup_nodupb : forall l, nodupb (dedup l) = true.
+Proof.
+  induction l as [|a l IH]; [reflexivity|]. cbn [dedup].
+  destruct (existsb (move_eqb a) l) eqn:E; [exact IH|].
+  cbn [nodupb]. rewrite IH, andb_true_r. apply negb_true_iff.
+  destruct (existsb (move_eqb a) (dedup l)) eqn:E2; [|reflexivity].
+  apply (proj1 (existsb_move_In a _)) in E2. apply (proj1 (dedup_In l a)) in E2.
+  apply (proj2 (existsb_move_In a l)) in E2. congruence.
+Qed.
+
+Lemma legalOf_In : forall p m, In m (legalOf p) <-> legal_spec (abs p) m.
+Proof. intros p m. unfold legalOf. rewrite dedup_In. apply legal_moves_spec_In. Qed.
+
+(** on every position that passes the acceptance test of the specification (what the FEN reader
+    enforces), the legal moves satisfy the hypothesis of the round-trip theorems *)
+Theorem legal_shape_accepted : forall p, accepted (abs p) = true -> legalShapeb p (legalOf p) = true.
+Proof.
+  intros p H. unfold legalShapeb. apply andb_true_iff. split; [apply dedup_nodupb|].
+  apply forallb_forall. intros m Hm. apply legalOf_In in Hm. exact (spec_legal_moves_ok p H m Hm).
+Qed.
+
+(** the statement of DESIGN.md: accepted position, legal move, every form parses back *)
+Theorem roundtrips_accepted : forall p, accepted (abs p) = true ->
+  forall m, legal_spec (abs p) m ->
+  stringToMoveP p (moveToStringP p m false) = m /\ stringToMoveP p (moveToStringP p m true) = m.
+Proof.
+  intros p H m Hm. apply legalOf_In in Hm. pose proof (legal_shape_accepted p H) as HS.
+  split; [apply short_roundtrip_P|apply long_roundtrip_P]; assumption.
+Qed.
+
+Theorem short_injective_accepted : forall p, accepted (abs p) = true ->
+  forall a b, legal_spec (abs p) a -> legal_spec (abs p) b ->
+  moveToStringP p a false = moveToStringP p b false -> a = b.
+Proof.
+  intros p H a b Ha Hb. apply legalOf_In in Ha. apply legalOf_In in Hb.
+  exact (short_injective_P p (legal_shape_accepted p H) a b Ha Hb).
+Qed.
+
 (* ---------- examples (non-vacuity) ---------- *)
 Definition posOfFen (s : str) : position :=
   match readFEN zk0 s with FenOk p => p | FenErr _ => emptyPosition zk0 end.
@@ -72,7 +126,7 @@ Definition fenCastleEp : str :=
 
 Example three_queens_hypothesis :
   let p := posOfFen fenThreeQueens in
-  legalShapeb p (legalOf p) = true /\ length (legalOf p) = 49%nat /\
+  accepted (abs p) = true /\ legalShapeb p (legalOf p) = true /\ length (legalOf p) = 49%nat /\
   In (mkMove 0 18 EMPTY) (legalOf p) /\
   moveToStringP p (mkMove 0 18 EMPTY) false = [ch_Q; 97; 49; 99; 51] /\      (* Qa1c3 *)
   moveToStringP p (mkMove 16 18 EMPTY) false = [ch_Q; 51; 99; 51] /\         (* Q3c3  *)
